@@ -11,6 +11,8 @@ PROFILES = {
     'deep': dict(max_depth=4, normalization=0.0, logical=0.2, wrong_shape=0.1),
     'wrong': dict(max_depth=2, normalization=0.0, logical=0.2, wrong_shape=0.6),
     'nones': dict(max_depth=2, normalization=0.0, logical=0.6, wrong_shape=0.05),
+    # update=True with ignore_none_values / require_all and None values at every depth: what `update` must reach
+    'update': dict(max_depth=3, normalization=0.0, logical=0.3, wrong_shape=0.05),
     # with normalization rules
     'normalize': dict(max_depth=3, normalization=0.5, logical=0.15),
     'mixed': dict(max_depth=3, normalization=0.25, logical=0.25, named=0.3),
@@ -25,7 +27,12 @@ def make_case(seed, index, profile='validate', norm_cfg=None):
     norm = params.get('normalization', 0) > 0 if norm_cfg is None else norm_cfg
     schema = g.schema()
     cfg = g.config(depth=1, norm=norm)
-    if profile == 'nones':
+    if profile == 'update':
+        cfg['ignore_none_values'] = rng.random() < 0.7
+        if rng.random() < 0.6:
+            cfg['require_all'] = True
+        doc = g.nones_document(schema, deep=True)
+    elif profile == 'nones':
         doc = g.nones_document(schema)
     elif rng.random() < 0.7:
         doc = g.document(schema, unknown=cfg.get('allow_unknown'))
@@ -36,7 +43,7 @@ def make_case(seed, index, profile='validate', norm_cfg=None):
                 doc[f] = g.anyval(2)
     if profile in ('wrong', 'validate', 'deep') and rng.random() < 0.5:
         doc = g.poison_dependencies(schema, doc)
-    case = {'schema': schema, 'cfg': cfg, 'doc': doc, 'update': rng.random() < 0.25,
+    case = {'schema': schema, 'cfg': cfg, 'doc': doc, 'update': rng.random() < (0.85 if profile == 'update' else 0.25),
             'cls': 'VV' if g.uses_named else 'V', 'seed': seed, 'index': index, 'profile': profile}
     return case, g
 
